@@ -136,7 +136,7 @@ def run(ctx):
         log_, nondet = logx
         if not ctx.quick and m[0] == "fault":
             thin[0] += 1
-            if thin[0] % 6:                 # thorough: every 6th fault run is replayed in Coq (all are checked on the implementation)
+            if thin[0] % 10:                # thorough: every 10th fault run is replayed in Coq (all are checked on the implementation)
                 return
         if nondet:
             skipped_nondet[0] += 1
@@ -448,7 +448,7 @@ def run(ctx):
     # ------------------------------------------------------------------ correspondence
     import time as _t
     t_gen = _t.time() - ctx.t0
-    res = J.coq_eval(cases)
+    res = J.coq_eval(cases, jobs=10 if ctx.quick else 14)
     ctx.coverage["timing"] = {"prove+generate_s": round(t_gen, 1), "coq_eval_s": round(_t.time() - ctx.t0 - t_gen, 1),
                               "case_chars": sum(len(c) for c in cases)}
     ctx.coverage["traces_validated_against_impl"] = res["evaluated"]
